@@ -81,6 +81,18 @@ CLIENT_OPS = (['connect'] * 4 + ['psend'] * 3 + ['pshut'] * 2 + ['pclose'] * 2 +
               ['cwrite'] * 2 + ['cclose'] * 2 + ['cwclose'] * 2 + ['step'])
 
 
+_LB = [0]
+
+
+def _loopback():
+    """A different 127.a.b.c address per universe: every case leaves sockets in TIME_WAIT for 60 s, and a long run on one
+    address exhausts the ephemeral port range (bind(0) then fails with EADDRINUSE; seen in the first thorough run)."""
+    import os
+    _LB[0] += 1
+    n = _LB[0]
+    return '127.%d.%d.%d' % (1 + os.getpid() % 200, 1 + (n // 250) % 250, 1 + n % 250)
+
+
 class _Escaped(Exception):
     """An exception left tick(): the loop of a real application would have died."""
 
@@ -334,7 +346,7 @@ class _ServerRun:
                 if slow:
                     c.setsockopt(socket.SOL_SOCKET, socket.SO_RCVBUF, 2048)
                     self.classes.add('slow-reader')
-                c.connect(('127.0.0.1', self.port))
+                c.connect((self.addr, self.port))
                 c.setblocking(False)
                 p = _Peer(len(self.peers), c, slow)
                 self.peers.append(p)
@@ -486,7 +498,8 @@ class _ServerRun:
         self.root = root = Manager()
         self.poller = self.P().register(root)
         opts = [(socket.SOL_SOCKET, socket.SO_SNDBUF, 4096)] if spec.get('sndbuf') else []
-        self.srv = TCPServer(('127.0.0.1', 0), socket_options=opts).register(root)
+        self.addr = _loopback()
+        self.srv = TCPServer((self.addr, 0), socket_options=opts).register(root)
         self.obs = SrvObs().register(root)
         self.obs.srv = self.srv
         self.settled = False
@@ -736,7 +749,7 @@ class _ClientRun:
                 self.wait(lambda: self.outstanding() <= 0)
             if self.outstanding() <= 0 and not self.peer_open:
                 before = self.obs.ev.count('connected')
-                self.root.fire(connect_ev('127.0.0.1', self.port), 'client')
+                self.root.fire(connect_ev(self.addr, self.port), 'client')
                 self.wait(lambda: self.obs.ev.count('connected') > before)
                 s = self.accept()
                 if s is None and self.obs.ev.count('connected') > before:
@@ -804,7 +817,8 @@ class _ClientRun:
         self.poller = self.P().register(root)
         self.lsock = socket.socket(socket.AF_INET, socket.SOCK_STREAM)
         try:
-            self.lsock.bind(('127.0.0.1', 0))
+            self.addr = _loopback()
+            self.lsock.bind((self.addr, 0))
             self.lsock.listen(8)
             self.lsock.setblocking(False)
             self.port = self.lsock.getsockname()[1]
